@@ -439,6 +439,13 @@ def elements_nonempty(eng: Engine, fn: FuncInfo, node: ast.AST) -> bool:
     """`node` sits in a loop / comprehension over elements and only runs for non-empty (truthy) elements: a dominating `if not v: continue`
     / `if v:`, an iterable `filter(None, ..)`, or a comprehension condition `if v`."""
     for a in ancestors(node):
+        if isinstance(a, (ast.For, ast.AsyncFor)) and isinstance(a.target, ast.Tuple) and all(isinstance(e_, ast.Name) for e_ in a.target.elts):
+            # `for idx, v in enumerate(XS)`: the element is the second name; other tuple targets: any of the names
+            names_ = [e_.id for e_ in a.target.elts]
+            if isinstance(a.iter, ast.Call) and call_name(a.iter) == 'enumerate' and len(names_) == 2:
+                names_ = names_[1:]
+            if any(pol and isinstance(e, ast.Name) and e.id in names_ for e, pol, _ in eng.guards_at(fn, node)):
+                return True
         if isinstance(a, (ast.For, ast.AsyncFor)) and isinstance(a.target, ast.Name):
             v = a.target.id
             it = expand_aliases(fn, a.iter)
@@ -559,3 +566,19 @@ def per_instance_state_rule(eng: Engine, ck: Check, rule: str, classes: list[Cla
                   (f'`{unparse(class_level[1])[:60]}` at class level in {class_level[0].name} and no `self.{attr} = ...` in any __init__: one object shared by every '
                    f'{ci.name} in the process') if class_level else '', construct=f'{ci.name}.{attr} per instance')
     return n
+
+
+def local_mirrors_attr(fn: FuncInfo, name: str, attr: str) -> bool:
+    """Every assignment of the local `name` in `fn` gives it the value of `<obj>.<attr>`: `name = X.attr`, or the chained
+    `name = X.attr = <value>` (the local and the attribute receive the same object).  The local then reads as the attribute."""
+    found = False
+    for n in walk_local(fn.node):
+        if isinstance(n, ast.Assign) and any(isinstance(t_, ast.Name) and t_.id == name for t_ in n.targets):
+            ok = (isinstance(n.value, ast.Attribute) and n.value.attr == attr) or any(isinstance(t_, ast.Attribute) and t_.attr == attr for t_ in n.targets)
+            if not ok:
+                return False
+            found = True
+        elif isinstance(n, ast.Name) and n.id == name and isinstance(n.ctx, (ast.Store, ast.Del)) and \
+                not any(isinstance(a_, ast.Assign) and n in a_.targets for a_ in walk_local(fn.node)):
+            return False
+    return found
